@@ -43,6 +43,7 @@ Section Hist.
   | SGrid | SSlim | SNative | SAreas
   | SBin (arr : list Num)                              (* binned_array_2d_from(array) *)
   | SVia (f : Num * Num -> Num)                        (* array_via_func_from(func) *)
+  | SHeld (held : list (Num * Num)) (f : Num * Num -> Num)   (* decorated f on Grid2DOverSampled(grid=held, over_sampler=self) *)
   | SEdit (i s : nat).                                 (* the user: sub_size[i] = s *)
   Inductive sout :=
   | RGrid (g : list (Num * Num)) | RNats (l : list nat) | RPairs (l : list (nat * nat)) | RNums (l : list Num) | RNone.
@@ -75,6 +76,7 @@ Section Hist.
     | SAreas => (st, RNums (sub_pixel_areas (s_ps st) (s_ss st)))
     | SBin arr => (st, RNums (binned arr (s_mask st) (s_ss st)))
     | SVia f => let '(st', r) := svia st f in (st', RNums r)
+    | SHeld held f => (st, RNums (decorated_oversampled f (s_mask st) (s_ss st) held))      (* never reads the cached grid *)
     | SEdit i s => (mkS (s_mask st) (s_ps st) (s_og st) (set_nth i s (s_ss st)) (c_grid st) (c_slim st) (c_native st), RNone)
     end.
   Fixpoint srun (st : sampler) (ops : list sop) : list sout :=
@@ -92,6 +94,7 @@ Section Hist.
     | SAreas => RNums (sub_pixel_areas ps ss)
     | SBin arr => RNums (binned arr m ss)
     | SVia f => RNums (array_via_func f m ps og ss)
+    | SHeld held f => RNums (decorated_oversampled f m ss held)
     | SEdit _ _ => RNone
     end.
   Definition ss_after (ss : list nat) (op : sop) : list nat :=
@@ -156,7 +159,8 @@ Local Open Scope Q_scope.
 
 Inductive sop_case :=
 | CGrid (out : list (Q * Q)) | CSlim (out : list nat) | CNative (out : list (nat * nat)) | CAreas (out : list Q)
-| CBin (arr out : list Q) | CVia (f : ufun Q) (out : list Q) | CEdit (i s : nat).
+| CBin (arr out : list Q) | CVia (f : ufun Q) (out : list Q) | CHeld (held : list (Q * Q)) (f : ufun Q) (out : list Q)
+| CEdit (i s : nat).
 
 Inductive hcase :=
   (* one operation on fresh objects (every constructor of Model.C09.case) *)
@@ -174,12 +178,13 @@ Inductive hcase :=
 Definition sop_of (c : sop_case) : @sop QOps :=
   match c with
   | CGrid _ => @SGrid QOps | CSlim _ => @SSlim QOps | CNative _ => @SNative QOps | CAreas _ => @SAreas QOps
-  | CBin arr _ => @SBin QOps arr | CVia f _ => @SVia QOps (@eval_ufun QOps f) | CEdit i s => @SEdit QOps i s
+  | CBin arr _ => @SBin QOps arr | CVia f _ => @SVia QOps (@eval_ufun QOps f)
+  | CHeld h f _ => @SHeld QOps h (@eval_ufun QOps f) | CEdit i s => @SEdit QOps i s
   end.
 Definition sout_of (c : sop_case) : @sout QOps :=
   match c with
   | CGrid o => @RGrid QOps o | CSlim o => @RNats QOps o | CNative o => @RPairs QOps o | CAreas o => @RNums QOps o
-  | CBin _ o => @RNums QOps o | CVia _ o => @RNums QOps o | CEdit _ _ => @RNone QOps
+  | CBin _ o => @RNums QOps o | CVia _ o => @RNums QOps o | CHeld _ _ o => @RNums QOps o | CEdit _ _ => @RNone QOps
   end.
 Definition sout_eqb (e : bool) (a b : @sout QOps) : bool :=
   match a, b with
@@ -213,6 +218,7 @@ Definition step_case (e : bool) (m : mask) (ps og : Q * Q) (ss : list nat) (c : 
   | CAreas o => Some (KAreas e ps ss o)
   | CBin arr o => Some (KBin e m ss arr o)
   | CVia f o => Some (KViaFunc e m ps og ss f o)
+  | CHeld h f o => Some (KHeld e m ss h f o)
   | CEdit _ _ => None
   end.
 Fixpoint steps_spec_ok (e : bool) (m : mask) (ps og : Q * Q) (ss : list nat) (steps : list sop_case) : bool :=
